@@ -21,14 +21,14 @@ func ifaceKey(cc *ssa.CallCommon, home *types.Package) string {
 		}
 	} else if _, ok := t.(*types.TypeParam); ok {
 		name = "typeparam"
-	} else if it, ok := t.Underlying().(*types.Interface); ok && it.NumMethods() <= 2 {
+	} else if it, ok := under(t).(*types.Interface); ok && it.NumMethods() <= 2 {
 		name = "interface"
 	}
 	return name + "." + cc.Method.Name()
 }
 
 func (x *Exec) callbackContract(t types.Type) *Contract {
-	sig, ok := t.Underlying().(*types.Signature)
+	sig, ok := under(t).(*types.Signature)
 	if !ok {
 		return nil
 	}
@@ -102,15 +102,15 @@ func (x *Exec) dispatch(st *State, fr *Frame, i *ssa.Call, cc *ssa.CallCommon, c
 	case BuiltinV:
 		return x.execBuiltin(st, fr, retTo, cc, cv.Name, args, pos, deferred)
 	case *ssa.Function:
-		return x.callFunc(st, fr, retTo, cv, nil, args, pos, deferred)
+		return x.callFunc(st, fr, retTo, cv, nil, args, pos, deferred, cc.Signature())
 	case *ClosureV:
-		return x.callFunc(st, fr, retTo, cv.Fn, cv.Bind, args, pos, deferred)
+		return x.callFunc(st, fr, retTo, cv.Fn, cv.Bind, args, pos, deferred, cc.Signature())
 	case Term:
 		if c, ok := x.closures[cv.S]; ok {
-			return x.callFunc(st, fr, retTo, c.Fn, c.Bind, args, pos, deferred)
+			return x.callFunc(st, fr, retTo, c.Fn, c.Bind, args, pos, deferred, cc.Signature())
 		}
 		if f, ok := x.funcs[cv.S]; ok {
-			return x.callFunc(st, fr, retTo, f, nil, args, pos, deferred)
+			return x.callFunc(st, fr, retTo, f, nil, args, pos, deferred, cc.Signature())
 		}
 		c := x.callbackContract(cc.Value.Type())
 		if c == nil {
@@ -123,7 +123,7 @@ func (x *Exec) dispatch(st *State, fr *Frame, i *ssa.Call, cc *ssa.CallCommon, c
 	panic(unsupported{fmt.Sprintf("call of %T", callee)})
 }
 
-func (x *Exec) callFunc(st *State, fr *Frame, retTo ssa.Value, fn *ssa.Function, bind []Val, args []Val, pos token.Pos, deferred bool) []*State {
+func (x *Exec) callFunc(st *State, fr *Frame, retTo ssa.Value, fn *ssa.Function, bind []Val, args []Val, pos token.Pos, deferred bool, csig *types.Signature) []*State {
 	if o := fn.Origin(); o != nil {
 		fn = o
 	}
@@ -133,7 +133,11 @@ func (x *Exec) callFunc(st *State, fr *Frame, retTo ssa.Value, fn *ssa.Function,
 	}
 	isBound := strings.HasSuffix(fn.Name(), "$bound") || strings.HasSuffix(fn.Name(), "$thunk")
 	if c := x.specs.Contracts[key]; c != nil && !isBound && !(len(st.frames) == 1 && false) {
-		return x.applyContract(st, fr, retTo, c, key, fn.Signature, args, pos, deferred, fn)
+		sig := fn.Signature
+		if csig != nil && csig.Results().Len() == sig.Results().Len() {
+			sig = csig
+		}
+		return x.applyContract(st, fr, retTo, c, key, sig, args, pos, deferred, fn)
 	}
 	if len(fn.Blocks) > 0 && (fn.Pkg == x.pkg || fn.Pkg == nil || fn.Parent() != nil || isBound) {
 		if fr.depth >= 6 {
@@ -154,10 +158,14 @@ func (x *Exec) callFunc(st *State, fr *Frame, retTo ssa.Value, fn *ssa.Function,
 	// external function without dependency contract: effect-free on the modelled state, cannot panic, result unconstrained
 	x.abstracted[key]++
 	var res Val
-	if fn.Signature.Results().Len() == 1 {
-		res = st.freshVal(fn.Signature.Results().At(0).Type(), "ext_"+fn.Name())
-	} else if fn.Signature.Results().Len() > 1 {
-		res = st.freshVal(fn.Signature.Results(), "ext_"+fn.Name())
+	esig := fn.Signature
+	if csig != nil && csig.Results().Len() == esig.Results().Len() {
+		esig = csig
+	}
+	if esig.Results().Len() == 1 {
+		res = st.freshVal(esig.Results().At(0).Type(), "ext_"+fn.Name())
+	} else if esig.Results().Len() > 1 {
+		res = st.freshVal(esig.Results(), "ext_"+fn.Name())
 	}
 	x.finish(st, fr, retTo, res, deferred)
 	return nil
@@ -486,7 +494,7 @@ func (x *Exec) execBuiltin(st *State, fr *Frame, retTo ssa.Value, cc *ssa.CallCo
 				res = retyped(bv64(0), types.Typ[types.Int])
 			case a.Sort == sRef:
 				// map
-				mt, ok := cc.Args[0].Type().Underlying().(*types.Map)
+				mt, ok := under(cc.Args[0].Type()).(*types.Map)
 				if !ok {
 					panic(unsupported{"len of " + cc.Args[0].Type().String()})
 				}
@@ -495,7 +503,7 @@ func (x *Exec) execBuiltin(st *State, fr *Frame, retTo ssa.Value, cc *ssa.CallCo
 				st.assume(app(sBool, nil, "bvsle", bv64(0), l))
 				res = l
 			default:
-				if at, ok := cc.Args[0].Type().Underlying().(*types.Array); ok {
+				if at, ok := under(cc.Args[0].Type()).(*types.Array); ok {
 					res = retyped(bv64(uint64(at.Len())), types.Typ[types.Int])
 				} else {
 					panic(unsupported{"len of sort " + a.Sort})
@@ -520,7 +528,7 @@ func (x *Exec) execBuiltin(st *State, fr *Frame, retTo ssa.Value, cc *ssa.CallCo
 		}
 	case "print", "println":
 	case "delete":
-		mt := cc.Args[0].Type().Underlying().(*types.Map)
+		mt := under(cc.Args[0].Type()).(*types.Map)
 		has, _, ln, ks, _ := x.mapKeys(st, mt)
 		m := st.asTerm(args[0], nil)
 		k := st.asTerm(args[1], mt.Key())
@@ -543,7 +551,7 @@ func (x *Exec) execBuiltin(st *State, fr *Frame, retTo ssa.Value, cc *ssa.CallCo
 func retyped(t Term, typ types.Type) Term { t.Typ = typ; return t }
 
 func (x *Exec) execAppend(st *State, fr *Frame, cc *ssa.CallCommon, args []Val, pos token.Pos) Val {
-	et := cc.Args[0].Type().Underlying().(*types.Slice).Elem()
+	et := under(cc.Args[0].Type()).(*types.Slice).Elem()
 	s := st.asSlice(args[0], et)
 	var t *SliceV
 	if tv, ok := args[1].(Term); ok && tv.Sort == sStr {
@@ -586,7 +594,7 @@ func (x *Exec) execAppend(st *State, fr *Frame, cc *ssa.CallCommon, args []Val, 
 func tEq2(a, b Term) Term { return Term{S: "(= " + a.S + " " + b.S + ")", Sort: sBool} }
 
 func (x *Exec) execCopy(st *State, fr *Frame, cc *ssa.CallCommon, args []Val, pos token.Pos) Val {
-	et := cc.Args[0].Type().Underlying().(*types.Slice).Elem()
+	et := under(cc.Args[0].Type()).(*types.Slice).Elem()
 	d := st.asSlice(args[0], et)
 	if tv, ok := args[1].(Term); ok && tv.Sort == sStr {
 		panic(unsupported{"copy(bytes, string)"})
